@@ -1,3 +1,92 @@
-From DI Require Import PyStr Version.
-Theorem C02_placeholder : True. Proof. exact I. Qed.
-Print Assumptions C02_placeholder.
+(* C02 - Version comparison is one coherent total preorder.
+   [wfv v]: the components of v only hold the characters a version may contain;
+   every version produced by from_string satisfies it (C02_parsed_versions_wf). *)
+From Coq Require Import String.
+From Coq Require Import NArith ZArith List Bool Sorted.
+From DI Require Import Result PyStr Version Dpkg OrderFacts VersionFacts ParseFacts VersionOrder.
+Import ListNotations.
+Open Scope Z_scope.
+
+Theorem C02_parsed_versions_wf : forall s v, from_string s = Ok v -> wfv v.
+Proof. exact from_string_wfv. Qed.
+Print Assumptions C02_parsed_versions_wf.
+
+Theorem C02_result_range : forall a b, wfv a -> wfv b ->
+  exists r, compare_version_objects a b = Ok r /\ (r = -1 \/ r = 0 \/ r = 1).
+Proof. exact law_result_range. Qed.
+Print Assumptions C02_result_range.
+
+Theorem C02_antisym : forall a b, wfv a -> wfv b ->
+  exists r, compare_version_objects a b = Ok r /\ compare_version_objects b a = Ok (- r).
+Proof. exact law_antisym. Qed.
+Print Assumptions C02_antisym.
+
+Theorem C02_refl : forall a, wfv a -> compare_version_objects a a = Ok 0.
+Proof. exact law_refl. Qed.
+Print Assumptions C02_refl.
+
+(* transitivity, including through order-equal versions, strict when one step is strict *)
+Theorem C02_trans : forall a b c, wfv a -> wfv b -> wfv c -> forall r1 r2,
+  compare_version_objects a b = Ok r1 -> compare_version_objects b c = Ok r2 ->
+  r1 <= 0 -> r2 <= 0 ->
+  exists r3, compare_version_objects a c = Ok r3 /\ r3 <= 0 /\
+             ((r1 < 0 \/ r2 < 0) -> r3 < 0) /\ ((r1 = 0 /\ r2 = 0) -> r3 = 0).
+Proof. exact law_trans_le. Qed.
+Print Assumptions C02_trans.
+
+(* < <= > >= and the constraint operators << <= < = >= > >> are the stated table
+   applied to the three-way result *)
+Theorem C02_ops_agree : forall a b r,
+  compare_version_objects a b = Ok r ->
+  v_lt a b = Ok (r <? 0) /\ v_le a b = Ok (r <=? 0) /\
+  v_gt a b = Ok (r >? 0) /\ v_ge a b = Ok (r >=? 0) /\
+  eval_constraint_obj a (lit "<<") b = Ok (r <? 0) /\
+  eval_constraint_obj a (lit "<=") b = Ok (r <=? 0) /\
+  eval_constraint_obj a (lit "<") b = Ok (r <=? 0) /\
+  eval_constraint_obj a (lit "=") b = Ok (r =? 0) /\
+  eval_constraint_obj a (lit ">=") b = Ok (r >=? 0) /\
+  eval_constraint_obj a (lit ">") b = Ok (r >=? 0) /\
+  eval_constraint_obj a (lit ">>") b = Ok (r >? 0).
+Proof. exact ops_agree. Qed.
+Print Assumptions C02_ops_agree.
+
+Theorem C02_unknown_operator : forall a b r o,
+  compare_version_objects a b = Ok r -> parse_op o = None ->
+  eval_constraint_obj a o b = Raise ValueError.
+Proof. exact unknown_op. Qed.
+Print Assumptions C02_unknown_operator.
+
+(* exactly one of "a before b", "b before a", "order-equal" *)
+Theorem C02_trichotomy : forall a b r,
+  compare_version_objects a b = Ok r -> (r = -1 \/ r = 0 \/ r = 1) ->
+  (v_lt a b = Ok true /\ v_gt a b = Ok false /\ r <> 0) \/
+  (v_lt a b = Ok false /\ v_gt a b = Ok true /\ r <> 0) \/
+  (v_lt a b = Ok false /\ v_gt a b = Ok false /\ r = 0).
+Proof. exact trichotomy. Qed.
+Print Assumptions C02_trichotomy.
+
+(* == implies order-equal and equal hashes, for any hash of the triple *)
+Theorem C02_eq_implies_order_equal_and_same_hash :
+  forall (H : Type) (hash : N * str * str -> H) a b,
+  wfv a -> version_eqb a b = true ->
+  compare_version_objects a b = Ok 0 /\
+  hash (epoch a, upstream a, revision a) = hash (epoch b, upstream b, revision b).
+Proof. exact @eq_implies_order_equal_and_hash. Qed.
+Print Assumptions C02_eq_implies_order_equal_and_same_hash.
+
+(* a list in which no adjacent pair is inverted under "<" (what a comparison sort
+   returns) is non-decreasing under the three-way comparison at every pair i < j *)
+Theorem C02_sorted_nondecreasing : forall l : list version,
+  Sorted vle l -> StronglySorted vle l.
+Proof. exact sorted_all_pairs. Qed.
+Print Assumptions C02_sorted_nondecreasing.
+
+Theorem C02_not_lt_is_le : forall a b, wfv a -> wfv b -> v_lt b a = Ok false -> vle a b.
+Proof. exact not_lt_is_le. Qed.
+Print Assumptions C02_not_lt_is_le.
+
+(* non-vacuity: 1.0 and 1.00 are different versions that are order-equal *)
+Example C02_order_equal_but_different :
+  exists a b, from_string (lit "1.0") = Ok a /\ from_string (lit "1.00-0") = Ok b /\
+              version_eqb a b = false /\ compare_version_objects a b = Ok 0.
+Proof. eexists; eexists. repeat split; vm_compute; reflexivity. Qed.
